@@ -53,10 +53,20 @@ def gen_cases(tier, seed):
                 k = n + d
                 if k > 0:
                     for version in (None, v):
-                        kw = {'error': lv, 'encoding': 'utf-8', 'eci': True}
-                        if version:
-                            kw['version'] = version
-                        cases.append(common.mk('a' * k, tag='eci', **kw))
+                        for enc in ('utf-8', rng.choice(['latin1', 'ISO-8859-1', 'L1', 'cp1252', 'iso-8859-15'])):
+                            kw = {'error': lv, 'encoding': enc, 'eci': True}
+                            if version:
+                                kw['version'] = version
+                            c = common.mk('a' * k, tag='eci', **kw)
+                            if rng.random() < 0.5:
+                                # the same length without / with an ECI header just before, in the same process
+                                other = dict(kw)
+                                other['encoding'] = 'utf-8' if enc != 'utf-8' else None
+                                other.pop('version', None)
+                                if other['encoding'] is None:
+                                    other.pop('encoding')
+                                c['pre'] = common.mk('a' * k, **other)
+                            cases.append(c)
     # multi-part boundaries: several segments (mixed modes; with eci several byte segments in different
     # non-default encodings, each with its own 12 bit ECI header), last part stretched to the exact capacity
     enc_text = {'utf-8': 'ä', 'cp1251': 'я', 'iso-8859-15': 'é', 'cp1252': 'ü', None: 'a'}
@@ -106,6 +116,28 @@ def gen_cases(tier, seed):
                         if version:
                             kw['version'] = version
                         cases.append(common.mk(with_last(n), tag='multi-boundary', b=[str(v), lv, 'multi' + ('-eci' if eci else ''), 'fit' if n == best else 'over'], **kw))
+    # two adjacent parts of the same mode that cannot be concatenated at bit level (first part off the group boundary): the
+    # encoder has to keep two segments and must budget two headers
+    for v in (versions if tier == 'thorough' else [1, 2, 4, 9, 10, 26, 27]):
+        for lv in oracle.LEVELS:
+            for mode, first in (('numeric', rng.choice([1, 2, 4, 5])), ('alphanumeric', rng.choice([1, 3, 5]))):
+                cap = oracle.capacity(v, lv)
+                head = gen.content_for_bits(mode, first)
+                best = None
+                for n in range(1, 8000):
+                    c = oracle.bits_of(v, [(mode, first, False), (mode, n, False)])
+                    if c is None or c > cap:
+                        break
+                    best = n
+                if best is None:
+                    continue
+                for n in (best, best + 1):
+                    for version in (None, v):
+                        kw = {'error': lv, 'micro': False}
+                        if version:
+                            kw['version'] = version
+                        cases.append(common.mk([head, gen.content_for_bits(mode, n)], tag='same-mode-two-segments',
+                                               b=[str(v), lv, 'two-' + mode, 'fit' if n == best else 'over'], **kw))
     # random lengths, all residues, multi-part
     n_rand = 600 if tier == 'quick' else 8000
     for _ in range(n_rand):
